@@ -42,6 +42,34 @@ func (r *Run) probeAgent(teids []uint32) (st agentState, teidUsed []bool) {
 	return
 }
 
+// bessForeignEntries counts datapath entries whose F-SEID is not in live.
+func (r *Run) bessForeignEntries(live map[uint64]bool) (n int, sample string) {
+	b := r.W.Bess
+	var all []string
+	for k, e := range b.PDR {
+		if !live[e.Valuesv[1]] {
+			all = append(all, fmt.Sprintf("pdrLookup %s (F-SEID %d)", k, e.Valuesv[1]))
+		}
+	}
+	for k, e := range b.FAR {
+		if !live[e.Fields[1]] {
+			all = append(all, fmt.Sprintf("farLookup %s (F-SEID %d)", k, e.Fields[1]))
+		}
+	}
+	for _, mod := range []string{"appQERLookup", "sessionQERLookup"} {
+		for k, e := range b.Qos[mod] {
+			if !live[e.Fields[len(e.Fields)-1]] {
+				all = append(all, fmt.Sprintf("%s %s (F-SEID %d)", mod, k, e.Fields[len(e.Fields)-1]))
+			}
+		}
+	}
+	sort.Strings(all)
+	if len(all) > 0 {
+		sample = all[0]
+	}
+	return len(all), sample
+}
+
 // bessEntriesOf counts datapath entries that carry the given F-SEID.
 func (r *Run) bessEntriesOf(fseid uint64) (n int, sample string) {
 	b := r.W.Bess
@@ -111,6 +139,22 @@ func scenarioC05(r *Run) {
 	cycles := poolSize + 2 + r.Ch.Choose(3, "extra-cycles")
 	kinds := map[string]bool{}
 	quietDone := false
+	modelLost := false // a request the model expected to be refused was accepted: it no longer knows the live sessions
+	// the datapath never keeps a rule of a session that does not exist
+	foreignCheck := func(when string) bool {
+		if modelLost || lossy {
+			return true
+		}
+		live := map[uint64]bool{}
+		for _, x := range r.LiveSessions() {
+			live[x.UPSEID] = true
+		}
+		if n, sample := r.bessForeignEntries(live); n > 0 {
+			r.Violate("C05", "datapath-entries-of-no-session", "%s: %d datapath entries carry the F-SEID of no session that exists, e.g. %s", when, n, sample)
+			return false
+		}
+		return true
+	}
 	for c := 0; c < cycles && r.AgentAlive() && len(r.Violations) == 0; c++ {
 		if !p.Associated {
 			p.AnswerHeartbeats, keepAlive = true, true
@@ -156,6 +200,7 @@ func scenarioC05(r *Run) {
 			r.Skel("rejected-est")
 			if res.Accepted {
 				delete(p.Sessions, bad.CPSEID)
+				modelLost = true
 			} else if res.Rx != nil {
 				r.Probe("establishment-rejected-after-allocation")
 			}
@@ -166,14 +211,43 @@ func scenarioC05(r *Run) {
 			*s.FAR(2) = FARSpec{ID: 2, Action: ActBUFF | ActNOCP, DstIface: IfAccess, HasFwd: true}
 		}
 		var res EstResult
+		refusedSlow := false
+		slowEst := !lossy && r.Ch.Choose(6, "slow-rpc-in-establishment") == 1
+		if slowEst {
+			// one of the establishment's parallel RPCs takes longer than the plug-in
+			// waits for (1 s): whatever the agent answers, nothing may stay installed
+			// for a session that does not exist
+			r.W.Bess.Faults.SlowNth = r.W.Bess.Calls + 1 + r.Ch.Choose(5, "slow-which")
+			r.W.Bess.Faults.SlowBy = time.Duration(1100+r.Ch.Choose(900, "slow-ms")) * time.Millisecond
+		}
 		for try := 0; try < 4; try++ {
 			res = p.Establish(s)
+			if slowEst {
+				r.W.Bess.Faults.SlowNth = 0
+				if r.W.Bess.Fired["bess-slow"] > 0 {
+					r.Fault("slow-rpc-in-establishment")
+				}
+				r.Sim.RunFor(1500 * time.Millisecond) // the slow call has come back by now
+				if !res.Accepted && res.Rx != nil && r.AgentAlive() {
+					// refused: the session does not exist, nothing of it may have stayed
+					r.Probe("establishment-refused-after-slow-rpc")
+					delete(p.Sessions, s.CPSEID)
+					refusedSlow = true
+					break
+				}
+			}
 			if res.Rx != nil || !lossy {
 				break
 			}
 			// lost request or response: retry with a new sequence number; an
 			// establishment whose response was lost may have created a session
 			s = g.Session(p, SessShape{UEAlloc: true, TEIDChoose: true})
+		}
+		if refusedSlow {
+			r.Op("cycle %d: establishment refused (cause %d) after one of its RPCs took longer than the plug-in waits", c, res.Cause)
+			r.Skel("refused-after-slow-rpc")
+			foreignCheck("an establishment was refused after a slow RPC")
+			continue
 		}
 		if !res.Accepted {
 			if res.Rx != nil && !lossy && r.AgentAlive() {
@@ -301,6 +375,9 @@ func scenarioC05(r *Run) {
 		}
 		if int(st.gauge+0.5) != live {
 			r.Violate("C05", "sessions-gauge:"+ending, "pfcp_sessions gauge is %v with %d live session(s) after the ending by %s", st.gauge, live, ending)
+			return
+		}
+		if !foreignCheck(fmt.Sprintf("after the session of cycle %d ended by %s", c, ending)) {
 			return
 		}
 	}
